@@ -284,6 +284,22 @@ impl Ord for Key {
         match self.labels.len() {
             0 => cmp::Ordering::Equal,
             1 => self.labels[0].cmp(&other.labels[0]),
+            2 => {
+                // `eq` and `key_hasher_impl` treat two labels as an unordered pair of whole labels
+                // (name and value), so order each side's pair the same way here: sorting by label
+                // name alone would make `[a=1, a=2]` and `[a=2, a=1]` equal but not `Ordering::Equal`.
+                let (a0, a1) = if self.labels[0] <= self.labels[1] {
+                    (&self.labels[0], &self.labels[1])
+                } else {
+                    (&self.labels[1], &self.labels[0])
+                };
+                let (b0, b1) = if other.labels[0] <= other.labels[1] {
+                    (&other.labels[0], &other.labels[1])
+                } else {
+                    (&other.labels[1], &other.labels[0])
+                };
+                a0.cmp(b0).then_with(|| a1.cmp(b1))
+            }
             n if n < 8 => {
                 let mut labels_sort_map: [u8; 8] = [0, 1, 2, 3, 4, 5, 6, 7];
                 labels_sort_map[..n].sort_by_key(|i| self.labels[*i as usize].key());
